@@ -24,7 +24,7 @@ impl Prop for C11 {
         crate::fuzzdec::c11(bytes)
     }
     const RULE: &'static str = "code-point mode: arbitrary Unicode strings from fragment pools (every White_Space code point, CRLF, NBSP, ideographic space, zero-width non-spaces, combining marks, hazards, fully random strings); grapheme mode: segmentation-stable strings built from the closed cluster pool and whitespace fragments (asserting), arbitrary strings: those in which no cluster mixes whitespace with non-whitespace code points assert every clause that does not re-segment an output (normal form, word_boundaries, remove, full), the rest run for totality. Oracle: clean(s) == s.split_whitespace().join(\" \") (std as the independent model) and its consequences, idempotence, word_boundaries against an independent scan over the character sequence, remove/full against filtered joins. Non-trivial: >= 2 whitespace runs one of which contains a non-ASCII whitespace or CRLF, and a multi-byte non-whitespace character. Distinct = distinct serialised case.";
-    const ESSENTIAL: &'static [&'static str] = &["graphemes_stable", "code_points", "leading_ws", "trailing_ws", "non_ascii_ws", "crlf", "empty", "only_ws", "unstable_totality", "unstable_mixed_free"];
+    const ESSENTIAL: &'static [&'static str] = &["graphemes_stable", "code_points", "leading_ws", "trailing_ws", "non_ascii_ws", "crlf", "empty", "only_ws", "unstable_totality", "unstable_mixed_free", "longer_than_4000_bytes"];
 
     fn budget(tier: Tier) -> Budget {
         match tier {
@@ -36,10 +36,11 @@ impl Prop for C11 {
     fn strategy(_tier: Tier, _shard: u32) -> BoxedStrategy<Case> {
         any::<bool>()
             .prop_flat_map(|g| {
+                // one text in ~3000: a byte length at or next to 256 ... 65536 (or a whitespace run of that size)
                 let t = if g {
-                    prop_oneof![12 => gen::stable_text(16), 2 => gen::text(10), 3 => gen::hazard_text(10), 1 => gen::stable_text(120)].boxed()
+                    prop_oneof![2000 => gen::stable_text(16), 330 => gen::text(10), 500 => gen::hazard_text(10), 165 => gen::stable_text(120), 1 => gen::sized_text(gen::stable_text(6), true)].boxed()
                 } else {
-                    prop_oneof![15 => gen::text(14), 1 => gen::text(100)].boxed()
+                    prop_oneof![2800 => gen::text(14), 185 => gen::text(100), 1 => gen::sized_text(gen::text(4).boxed(), false)].boxed()
                 };
                 t.prop_map(move |s| Case { s, graphemes: g })
             })
@@ -78,6 +79,7 @@ impl Prop for C11 {
         } else {
             out.label(if g { "graphemes_stable" } else { "code_points" });
         }
+        out.label_if(s.len() >= 4000, "longer_than_4000_bytes");
         out.label_if(s.is_empty(), "empty");
         out.label_if(!s.is_empty() && s.chars().all(char::is_whitespace), "only_ws");
         out.label_if(s.chars().next().is_some_and(char::is_whitespace), "leading_ws");
